@@ -186,6 +186,9 @@ pub fn decode_case(data: &[u8], fam: Family) -> Case {
             }
         }
     }
+    if subj.is_merge() {
+        cfg.child_kind = b(u) % 2;
+    }
     if subj.is_collection() {
         cfg.child_kind = [0u8, 0, 0, 1, 2][b(u) as usize % 5];
         cfg.inexact_iter = b(u) % 4 == 0;
@@ -204,9 +207,9 @@ pub fn decode_case(data: &[u8], fam: Family) -> Case {
                 let k = b(u);
                 Op::PushMany(if k & 128 != 0 { (k & 127) % 70 } else { k % 12 }, plan(u, merge, false))
             }
-            8..=11 => Op::Poll(b(u) % 3),
+            8..=11 => Op::Poll(b(u) % 6),
             12 => Op::PollMany(b(u) % 3, b(u) % 16),
-            13 | 14 => Op::Exec(b(u) % 3, b(u) % 24),
+            13 | 14 => Op::Exec(b(u) % 6, b(u) % 24),
             15 => Op::SetReady(sel(u)),
             16..=18 => Op::Complete(sel(u)),
             19 => Op::CompleteMany(sel(u), b(u) % 64),
